@@ -17,6 +17,7 @@ import (
 	"verif/internal/gen"
 	"verif/internal/gt"
 	"verif/internal/h"
+	"verif/internal/ops"
 	"verif/internal/ref"
 )
 
@@ -35,7 +36,23 @@ func mem(i int) int {
 	return memSel[i%len(memSel)]
 }
 
+// editedFrom: a model that was read back from an object indexed and then edited in memory
+// (start model + history): parseMem builds such an object again each time the tree is needed.
+type recipe struct {
+	start *ref.Node
+	hist  []ops.Op
+}
+
+var editedFrom = map[*ref.Node]recipe{}
+
 func parseMem(m *ref.Node, i int) (*tree.Tree, error) {
+	if r, ok := editedFrom[m]; ok {
+		t, _, ok2, err := ops.Edited(r.start, r.hist, false)
+		if err != nil || !ok2 {
+			return nil, fmt.Errorf("harness: history not replayable: %v", err)
+		}
+		return t, nil
+	}
 	t, err := gt.FromModel(m)
 	if err != nil {
 		return nil, err
@@ -52,6 +69,7 @@ type Case struct {
 	Boots   []*ref.Node `json:"boots"`
 	BootAlt []*ref.Node `json:"boots_alt"`
 	Mem     []int       `json:"mem,omitempty"` // in-memory re-rootings of the parsed trees (0 = none)
+	RefHist []ops.Op    `json:"ref_history,omitempty"` // the reference tree was indexed (analysed before) and then edited in memory, tip set kept
 }
 
 func baseOpts(thorough bool) gen.Opts {
@@ -119,6 +137,9 @@ func genCase(t *rapid.T, thorough bool) Case {
 	}
 	if rapid.Bool().Draw(t, "mem") {
 		c.Mem = rapid.SliceOfN(rapid.IntRange(0, 50), 1, 6).Draw(t, "memsel")
+	}
+	if rapid.IntRange(0, 3).Draw(t, "hashist") == 1 {
+		c.RefHist = ops.GenHistoryOf(t, ops.SameTaxa, 3)
 	}
 	return c
 }
@@ -338,6 +359,19 @@ func runOne(refm *ref.Node, boots []*ref.Node, tx *ref.Taxa, exp map[string]want
 func check(c Case) error {
 	memSel = c.Mem
 	defer func() { memSel = nil }()
+	for k := range editedFrom {
+		delete(editedFrom, k)
+	}
+	if len(c.RefHist) > 0 {
+		_, m2, ok, err := ops.Edited(c.Ref, c.RefHist, false)
+		if err != nil {
+			return err
+		}
+		if ok {
+			editedFrom[m2] = recipe{c.Ref, c.RefHist}
+			c.Ref, c.RefAlt = m2, m2
+		}
+	}
 	tx, err := ref.NewTaxa(c.Ref.Tips())
 	if err != nil {
 		return err
@@ -365,7 +399,7 @@ func check(c Case) error {
 func TestC10Support(t *testing.T) {
 	h.Run(t, h.Spec[Case]{
 		Property: "C10", Name: "support", Quick: 4000, Thorough: 200000,
-		Rule: "reference tree (4..10 tips, 5% up to 24/80, rooted or not, multifurcating) with 1..10 bootstrap trees obtained by 0..3 (near) or 4..10 (far) NNI/contract/refine/swap perturbations, each re-rooted at a node, rooted on a branch or as is; FBP and TBE (1 thread, called like the commands) against brute-force definitions (split membership; min over all bootstrap branches of min(H, n-H)); laws 0<=FBP<=TBE<=1, TBE=1 <=> FBP=1, no support on tip/trivial branches; repeated on a permuted, re-presented copy; non-trivial = some reference split is absent from a bootstrap tree with transfer distance strictly between 0 and p-1",
+		Rule: "reference tree (4..10 tips, 5% up to 24/80, rooted or not, multifurcating) with 1..10 bootstrap trees obtained by 0..3 (near) or 4..10 (far) NNI/contract/refine/swap perturbations, each re-rooted at a node, rooted on a branch or as is; in a quarter of the cases the reference tree is an object that was indexed and then edited in memory by 1-3 operations keeping the tip set (names exchanged, NNI, re-root, ShuffleTips ...), the oracle using the model read back; FBP and TBE (1 thread, called like the commands) against brute-force definitions (split membership; min over all bootstrap branches of min(H, n-H)); laws 0<=FBP<=TBE<=1, TBE=1 <=> FBP=1, no support on tip/trivial branches; repeated on a permuted, re-presented copy; non-trivial = some reference split is absent from a bootstrap tree with transfer distance strictly between 0 and p-1",
 		Gen:   genCase,
 		Check: check,
 		Classify: func(c Case) (bool, []string) {
